@@ -90,6 +90,66 @@ fn pfloats(spec: &Value, name: &str, default: &[Float]) -> Vec<Float> {
     spec["params"][name].as_array().map(|a| a.iter().map(|v| v.as_f64().unwrap() as Float).collect()).unwrap_or_else(|| default.to_vec())
 }
 
+fn repeat_of(spec: &Value) -> Option<rustradio::Repeat> {
+    spec["params"]["repeat"].as_i64().map(|r| if r < 0 { rustradio::Repeat::infinite() } else { rustradio::Repeat::finite(r as u64) })
+}
+thread_local! {
+    /// temp dirs of the current scenario (file backed sources / sinks)
+    pub static TMPDIRS: std::cell::RefCell<Vec<tempfile::TempDir>> = const { std::cell::RefCell::new(Vec::new()) };
+}
+fn new_tmpdir() -> std::path::PathBuf {
+    let d = tempfile::tempdir().expect("tempdir");
+    let p = d.path().to_path_buf();
+    TMPDIRS.with(|t| t.borrow_mut().push(d));
+    p
+}
+/// Serialise samples little-endian.
+fn le_bytes_u8(d: &[u8]) -> Vec<u8> {
+    d.to_vec()
+}
+fn le_bytes_u32(d: &[u32]) -> Vec<u8> {
+    d.iter().flat_map(|x| x.to_le_bytes()).collect()
+}
+fn le_bytes_i32(d: &[i32]) -> Vec<u8> {
+    d.iter().flat_map(|x| x.to_le_bytes()).collect()
+}
+fn sigmf_files(spec: &Value, datatype: &str, data: &[u8]) -> std::path::PathBuf {
+    let dir = new_tmpdir();
+    let meta = serde_json::json!({"global": {"core:datatype": datatype, "core:version": "1.1.0", "core:sample_rate": 1000.0},
+        "captures": [{"core:sample_start": 0}], "annotations": []}).to_string();
+    if spec["params"]["archive"].as_bool().unwrap_or(false) {
+        // members in the order given by params.order (a permutation index), with unrelated members around
+        let path = dir.join("rec.sigmf");
+        let f = std::fs::File::create(&path).unwrap();
+        let mut tb = tar::Builder::new(f);
+        let mut add = |name: &str, content: &[u8]| {
+            let mut h = tar::Header::new_gnu();
+            h.set_size(content.len() as u64);
+            h.set_mode(0o644);
+            h.set_cksum();
+            tb.append_data(&mut h, name, content).unwrap();
+        };
+        let order = spec["params"]["order"].as_u64().unwrap_or(0);
+        let members: Vec<(&str, Vec<u8>)> = vec![
+            ("README.txt", b"unrelated member".to_vec()),
+            ("rec/x.sigmf-meta", meta.as_bytes().to_vec()),
+            ("rec/x.sigmf-data", data.to_vec()),
+            ("rec/other.bin", vec![7u8; 700]),
+        ];
+        let perms: [[usize; 4]; 6] = [[0, 1, 2, 3], [2, 1, 0, 3], [3, 2, 0, 1], [1, 3, 2, 0], [2, 3, 1, 0], [0, 3, 2, 1]];
+        for i in perms[(order % 6) as usize] {
+            add(members[i].0, &members[i].1);
+        }
+        tb.finish().unwrap();
+        path
+    } else {
+        let base = dir.join("rec.sigmf");
+        std::fs::write(dir.join("rec.sigmf-meta"), meta).unwrap();
+        std::fs::write(dir.join("rec.sigmf-data"), data).unwrap();
+        base
+    }
+}
+
 macro_rules! rig {
     ($b:expr, [$($i:expr),*], [$($o:expr),*]) => {
         Ok(Rig { block: Box::new($b), ins: vec![$($i),*], outs: vec![$($o),*] })
@@ -369,8 +429,8 @@ pub fn make(spec: &Value, rng: &mut Rng) -> Result<Rig, String> {
             let data = gen_data::<Big>(spec, 0, rng);
             SRC_DATA.with(|d| *d.borrow_mut() = data.iter().map(|x| x.num().unwrap_or(NONUM)).collect());
             let (mut b, o) = VectorSource::new(data);
-            if let Some(r) = spec["params"]["repeat"].as_u64() {
-                b.set_repeat(rustradio::Repeat::finite(r));
+            if let Some(r) = repeat_of(spec) {
+                b.set_repeat(r);
             }
             rig!(b, [], [ring_out(o)])
         }
@@ -378,9 +438,57 @@ pub fn make(spec: &Value, rng: &mut Rng) -> Result<Rig, String> {
             let data = gen_data::<u8>(spec, 0, rng);
             SRC_DATA.with(|d| *d.borrow_mut() = data.iter().map(|x| x.num().unwrap_or(NONUM)).collect());
             let (mut b, o) = VectorSource::new(data);
-            if let Some(r) = spec["params"]["repeat"].as_u64() {
-                b.set_repeat(rustradio::Repeat::finite(r));
+            if let Some(r) = repeat_of(spec) {
+                b.set_repeat(r);
             }
+            rig!(b, [], [ring_out(o)])
+        }
+        "FileSource<u8>" | "FileSource<u32>" => {
+            let dir = new_tmpdir();
+            let path = dir.join("data.bin");
+            let extra = pu(spec, "extra", 0) as usize;
+            if name == "FileSource<u8>" {
+                let data = gen_data::<u8>(spec, 0, rng);
+                SRC_DATA.with(|d| *d.borrow_mut() = data.iter().map(|x| x.num().unwrap_or(NONUM)).collect());
+                std::fs::write(&path, le_bytes_u8(&data)).unwrap();
+                let (mut b, o) = FileSource::<u8>::new(&path).map_err(|e| format!("{e}"))?;
+                if let Some(r) = repeat_of(spec) {
+                    b.repeat(r);
+                }
+                rig!(b, [], [ring_out(o)])
+            } else {
+                let data = gen_data::<u32>(spec, 0, rng);
+                SRC_DATA.with(|d| *d.borrow_mut() = data.iter().map(|x| x.num().unwrap_or(NONUM)).collect());
+                let mut bytes = le_bytes_u32(&data);
+                bytes.extend(std::iter::repeat(0xEE).take(extra));   // trailing partial sample
+                std::fs::write(&path, bytes).unwrap();
+                let (mut b, o) = FileSource::<u32>::new(&path).map_err(|e| format!("{e}"))?;
+                if let Some(r) = repeat_of(spec) {
+                    b.repeat(r);
+                }
+                rig!(b, [], [ring_out(o)])
+            }
+        }
+        "SigMFSource<u8>" => {
+            let data = gen_data::<u8>(spec, 0, rng);
+            SRC_DATA.with(|d| *d.borrow_mut() = data.iter().map(|x| x.num().unwrap_or(NONUM)).collect());
+            let path = sigmf_files(spec, "ru8_le", &le_bytes_u8(&data));
+            let mut bld = SigMFSourceBuilder::<u8>::new(path);
+            if let Some(r) = repeat_of(spec) {
+                bld = bld.repeat(r);
+            }
+            let (b, o) = bld.build().map_err(|e| format!("{e}"))?;
+            rig!(b, [], [ring_out(o)])
+        }
+        "SigMFSource<i32>" => {
+            let data = gen_data::<i32>(spec, 0, rng);
+            SRC_DATA.with(|d| *d.borrow_mut() = data.iter().map(|x| x.num().unwrap_or(NONUM)).collect());
+            let path = sigmf_files(spec, "ri32_le", &le_bytes_i32(&data));
+            let mut bld = SigMFSourceBuilder::<i32>::new(path);
+            if let Some(r) = repeat_of(spec) {
+                bld = bld.repeat(r);
+            }
+            let (b, o) = bld.build().map_err(|e| format!("{e}"))?;
             rig!(b, [], [ring_out(o)])
         }
         "ConstantSource<u8>" => {
